@@ -11,7 +11,12 @@ import (
 	"safecheck/relang"
 )
 
-func init() { register("C13", "other", runC13) }
+func init() {
+	register("C13", "other", func(p *Program, r *Report) {
+		runC13(p, r)
+		checkBoundsProven(p, r, "C13.B1", "trustedresourceurl.go")
+	})
+}
 
 // DESIGN A.6
 const (
